@@ -4,7 +4,7 @@ in a scratch worktree (never /repo) through VERIF_REPO; prints detected / missed
 import sys, os, subprocess, json, glob
 ROOT = os.path.dirname(os.path.dirname(os.path.abspath(__file__)))
 ids = sys.argv[1:] or sorted(os.path.basename(os.path.dirname(p)) for p in glob.glob(os.path.join(ROOT, "seeded", "C*", "patch.diff")))
-wt = "/tmp/repo_seedchk"
+wt = "/tmp/repo_seedchk_%d" % os.getpid()  # one scratch worktree per run: concurrent runs must not share it
 subprocess.call(["git", "-C", "/repo", "worktree", "remove", "--force", wt], stderr=subprocess.DEVNULL)
 subprocess.check_call(["git", "-C", "/repo", "worktree", "add", "-q", "--detach", wt, "HEAD"])
 try:
